@@ -4,8 +4,9 @@
 package valgen
 
 import (
-	"strings"
 	"fmt"
+	"math/big"
+	"strings"
 
 	eth2spec "github.com/attestantio/go-eth2-client/spec"
 	"reflect"
@@ -226,6 +227,11 @@ func Scribble(v any) int {
 			}
 		case reflect.Pointer:
 			if !val.IsNil() {
+				if bi, ok := val.Interface().(*big.Int); ok {
+					bi.Add(bi, big.NewInt(1)) // mutable through its methods only
+					n++
+					return
+				}
 				rec(val.Elem(), true, depth+1)
 			}
 		case reflect.Slice:
